@@ -204,3 +204,23 @@ Theorem C03_number_rejection : forall fixed len num mn mx,
       || match mx with Some m => (m <? num)%Z | None => false end).
 Proof. exact num_rejects_spec. Qed.
 Print Assumptions C03_number_rejection.
+
+(* strict_slashes / merge_slashes left at None on a rule are the map's settings (Rule.bind); matching the rule is matching the
+   rule with the inherited settings written on it *)
+Theorem C03_flags_inherited : forall m r,
+  (r_strict_opt r = None -> rstrict m r = m_strict m)
+  /\ (r_merge_opt r = None -> rmerge m r = m_merge m)
+  /\ (forall b, r_strict_opt r = Some b -> rstrict m r = b)
+  /\ (forall b, r_merge_opt r = Some b -> rmerge m r = b)
+  /\ rstrict m (explicit_flags m r) = rstrict m r /\ rmerge m (explicit_flags m r) = rmerge m r
+  /\ forall P, admits m (explicit_flags m r) P = admits m r P.
+Proof. exact flags_inherited. Qed.
+Print Assumptions C03_flags_inherited.
+
+Example C03_flags_example :
+  map_match no_hooks {| m_rules := [ex_r2]; m_strict := false; m_merge := true; m_redirect_defaults := true; m_host_matching := false |}
+    ex_adapter [47; 51] GET = Match ex_r2 [([97], VInt 3)]
+  /\ exists u, map_match no_hooks {| m_rules := [explicit_flags ex_map2 ex_r2]; m_strict := false; m_merge := true;
+                                      m_redirect_defaults := true; m_host_matching := false |} ex_adapter [47; 51] GET = RedirectTo u.
+Proof. exact ex_flags. Qed.
+Print Assumptions C03_flags_example.
